@@ -1,7 +1,7 @@
 """Environment model of quick_xml::Reader (a script of events), the symbolic document family ("skeletons", DESIGN §3.1),
 serialisation of a solver model back into concrete XML bytes, and the independent inference oracle (DESIGN §3.3)."""
 import z3
-from .interp import (RStr, RBytes, RStruct, REnum, RVec, RIter, RTuple, UNIT, Ok, Err, Some, NONE, Unsupported,
+from .interp import (zstr, RStr, RBytes, RStruct, REnum, RVec, RIter, RTuple, UNIT, Ok, Err, Some, NONE, Unsupported,
                      BUILTIN_METHODS, Frags, s_z3)
 
 # ---------------------------------------------------------------------------------------------- events
@@ -11,6 +11,9 @@ def bs(name, attrs=(), tag=None, name_utf8=True):
     for i, a in enumerate(attrs):
         if isinstance(a, tuple) and a and a[0] == 'err':
             al.append(Err(RStruct('AttrError', {'disp': a[1], 'dbg': a[1], 'tag': '%s.attr%d' % (tag, i)})))
+        elif isinstance(a, tuple) and a and a[0] == 'dup':
+            # Duplicated: an error for the default (checked) iterator, an ordinary attribute for `.with_checks(false)`
+            al.append(Err(RStruct('AttrError', {'disp': a[3], 'dbg': a[3], 'tag': '%s.attr%d' % (tag, i), 'dup_key': RBytes(a[1], a[2], '%s.attr%d' % (tag, i))})))
         else:
             key, u8 = a if isinstance(a, tuple) else (a, True)
             al.append(Ok(RStruct('Attribute', {'key': RBytes(key, u8, '%s.attr%d' % (tag, i)),
@@ -56,7 +59,23 @@ BUILTIN_METHODS[('Reader', 'buffer_position')] = lambda m, r: r.f['bufpos']
 BUILTIN_METHODS[('Reader', 'config_mut')] = lambda m, r: (_ for _ in ()).throw(Unsupported('reader configuration is outside the event model'))
 BUILTIN_METHODS[('BytesStart', 'name')] = lambda m, b: b.f['name']
 BUILTIN_METHODS[('BytesStart', 'local_name')] = lambda m, b: (_ for _ in ()).throw(Unsupported('BytesStart::local_name'))
-BUILTIN_METHODS[('BytesStart', 'attributes')] = lambda m, b: RIter(b.f['attrs'].l)
+def _attributes(m, b):
+    # the default iterator stops being useful after its first error (the parser returns there); items after a duplicate exist only for the unchecked view
+    it = RIter(b.f['attrs'].l); it.attr_iter = True
+    return it
+def _with_checks(m, it, flag):
+    if not getattr(it, 'attr_iter', False): raise Unsupported('with_checks on a non-attribute iterator')
+    if flag is True: return it
+    if flag is not False: raise Unsupported('with_checks with a symbolic flag')
+    out = []
+    for x in it.l[it.i:]:
+        if x.variant == 'Err' and 'dup_key' in x.p[0].f:
+            out.append(Ok(RStruct('Attribute', {'key': x.p[0].f['dup_key'], 'value': RBytes(z3.String('val_dup'), True, 'v')})))
+        else: out.append(x)
+    r = RIter(out); r.attr_iter = True
+    return r
+BUILTIN_METHODS[('BytesStart', 'attributes')] = _attributes
+BUILTIN_METHODS[('RIter', 'with_checks')] = _with_checks
 BUILTIN_METHODS[('BytesText', 'into_inner')] = lambda m, b: b.f['content']
 BUILTIN_METHODS[('BytesCData', 'into_inner')] = lambda m, b: b.f['content']
 BUILTIN_METHODS[('BytesText', 'as_ref')] = lambda m, b: b.f['content']
@@ -76,8 +95,10 @@ def script_from_native_events(evs):
             for a in e['attrs']:
                 if a['ok']:
                     kk, ku = dec(a['key']); attrs.append((kk, ku))
+                elif 'dup_key' in a:
+                    kk, ku = dec(a['dup_key']); attrs.append(('dup', kk, ku, a['err']))
                 else:
-                    attrs.append(('err', a['err'])); break      # the attribute iterator stops being consulted after the first error
+                    attrs.append(('err', a['err'])); break      # a malformed attribute ends the list for every iterator configuration
             out.append(Entry(ev_start(name, attrs, tag, nu) if k == 'Start' else ev_empty(name, attrs, tag, nu), pos=e['pos']))
         elif k == 'End': out.append(Entry(ev_end(), pos=e['pos']))
         elif k in ('Text', 'CData'):
@@ -206,7 +227,7 @@ def mval(model, v, default=None):
     if z3.is_bool(r): return z3.is_true(r)
     if z3.is_int_value(r): return r.as_long()
     if z3.is_bv_value(r): return r.as_long()
-    if z3.is_string_value(r): return r.as_string()
+    if z3.is_string_value(r): return zstr(r)
     raise Unsupported('cannot concretise %s' % r)
 
 def xml_escape_text(s): return s.replace('&', '&amp;').replace('<', '&lt;').replace('>', '&gt;')
